@@ -1,11 +1,126 @@
-import TucanProofs.Lemmas.Sort
-import TucanModel.Canon
-/-! # C12 — property theorems (see DESIGN.md §5) -/
-namespace Tucan
+import TucanProofs.Lemmas.Canonical
+import TucanProofs.Examples
+/-!
+# C12 — canonicalization only renames atoms; nothing is lost, added or mutated
 
-/-- The neighbour part of an attribute sequence does not depend on the order in which the neighbours
-are listed. -/
-theorem C12_neighbour_keys_listing_independent {l₁ l₂ : List Key} (h : l₁.Perm l₂) :
-    sortKDesc l₁ = sortKDesc l₂ := sortKDesc_perm_eq h
+Model: `canonicalizeWith g order` (`canonicalize_molecule` with igraph's answer as a parameter) and
+`serializeMolecule` (which returns the string together with the post-state of its argument).
+The model is value-based: an operation cannot change its argument except through the post-state it
+returns explicitly; that the real code does not alias or mutate beyond that is checked by the harness
+on every run (argument snapshots before/after, identity of attribute dictionaries, repeated calls).
+-/
+namespace Tucan
+open NxRelabel
+
+/-- **Canonicalization is a renaming.**  For any oracle that returns a permutation of the vertices
+(checked on every real call), the canonical graph is the input under an injective renaming `σ` of its
+atoms onto `0 … n-1`: every atom keeps all of its attributes (only `partition` is set), every bond keeps
+its endpoints and its bond record, and no atom or bond appears or disappears. -/
+theorem C12_canonicalize_renames (order : Graph → List Nat)
+    (hperm : ∀ r : Graph, r.WF → (order r).Perm r.labels)
+    (g c r : Graph) (k : Nat) (hw : g.WF) (hs : g.Simple)
+    (h : canonicalizeWith g order = .ok (c, r, k)) :
+    ∃ σ : Nat → Nat,
+      (∀ a ∈ g.labels, ∀ b ∈ g.labels, σ a = σ b → a = b) ∧
+      c.labels.Perm (List.range g.numberOfNodes) ∧
+      (∀ a ∈ g.labels, ∃ x p, g.attrs? a = some x ∧ c.attrs? (σ a) = some { x with part := p }) ∧
+      (∀ a ∈ g.labels, (c.nbrsD (σ a)).Perm ((g.nbrsD a).map fun e => (σ e.1, e.2))) ∧
+      c.WF ∧ c.Simple := by
+  have hc : CopySpec := Graph.copy_spec
+  have hm : MapAttrsSpec := Graph.mapAttrs_spec
+  unfold canonicalizeWith at h
+  cases hp : partitionMoleculeByAttribute g .invariantCode with
+  | error e => simp [hp, bind, Except.bind] at h
+  | ok p =>
+    simp only [hp, bind, Except.bind] at h
+    cases hr : refinePartitions p with
+    | error e => simp [hr] at h
+    | ok rr =>
+      obtain ⟨r0, k0⟩ := rr
+      simp only [hr, pure, Except.pure] at h
+      injection h with h
+      injection h with hcq h2
+      injection h2 with hrq hkq
+      subst hrq
+      obtain ⟨hpl, hpw, hps, hpa, hpn⟩ := partition_spec hc hm g .invariantCode hw hs p hp
+      obtain ⟨hrl, hrw, hrs, hra, hrn⟩ := refineLoop_attrs hc hm _ p 0 r0 k0 hpw hps hr
+      have hlab : r0.labels = g.labels := hrl.trans hpl
+      have hord := hperm r0 hrw
+      have hnd : (order r0).Nodup := hord.nodup_iff.mpr hrw.nodup
+      have hinj : ∀ a ∈ r0.labels, ∀ b ∈ r0.labels,
+          Graph.mapGet (order r0).zipIdx a = Graph.mapGet (order r0).zipIdx b → a = b :=
+        fun a ha b hb => mapGet_zipIdx_inj hnd a (hord.mem_iff.mpr ha) b (hord.mem_iff.mpr hb)
+      obtain ⟨rel, cw, cs, cl⟩ := Graph.relabelCopy_spec r0 (order r0).zipIdx hrw hrs hinj
+      unfold assignCanonicalLabels at hcq
+      subst hcq
+      refine ⟨Graph.mapGet (order r0).zipIdx, ?_, ?_, ?_, ?_, cw, cs⟩
+      · intro a ha b hb; exact hinj a (hlab ▸ ha) b (hlab ▸ hb)
+      · rw [cl]
+        have hlen : (order r0).length = g.numberOfNodes := by
+          have := hord.length_eq
+          rw [hlab] at this
+          simpa [Graph.numberOfNodes, Graph.labels] using this
+        rw [← hlen, ← map_mapGet_zipIdx hnd]
+        exact hord.symm.map _
+      · intro a ha
+        obtain ⟨x, hx⟩ := Graph.attrs?_some_of_mem ha
+        have h1 := hpa a ha
+        rw [hx] at h1
+        obtain ⟨y, q, hy, hry⟩ := hra a (hpl ▸ ha)
+        rw [h1] at hy
+        have : y = { x with part := some (classOf g .invariantCode a : Int) } := by
+          simpa using hy.symm
+        subst this
+        exact ⟨x, q, hx, by rw [rel.attrs a (hlab ▸ ha), hry]⟩
+      · intro a ha
+        have h1 := rel.nbrs a (hlab ▸ ha)
+        have h2 := (hrn a (hpl ▸ ha)).trans (hpn a ha)
+        exact h1.trans (h2.map _)
+
+/-- **Serialization only touches the scratch flag.**  The post-state of the serializer's argument is the
+argument with `explored := false` on every atom: labels, neighbour lists, bond records and every other
+attribute are unchanged. -/
+theorem C12_serialize_post (c p : Graph) (s : Str) (h : serializeMolecule c = .ok (s, p)) :
+    p = c.resetExplored ∧ p.labels = c.labels ∧ (∀ a, p.nbrsD a = c.nbrsD a) ∧
+    (∀ a, p.attrs? a = (c.attrs? a).map fun x => { x with explored := some false }) := by
+  have hp : p = c.resetExplored := by
+    unfold serializeMolecule at h
+    cases h1 : assignFinalLabels c with
+    | error e => simp [h1, bind, Except.bind] at h
+    | ok v =>
+      obtain ⟨fl, g', m⟩ := v
+      simp only [h1, bind, Except.bind] at h
+      cases h2 : sortMoleculeByAttribute fl .atomicNumber with
+      | error e => simp [h2] at h
+      | ok mm =>
+        simp only [h2, pure, Except.pure] at h
+        injection h with h; injection h with _ hg
+        subst hg
+        unfold assignFinalLabels at h1
+        split at h1
+        · simp at h1
+        · cases h3 : finalLabels c.resetExplored.view with
+          | error e => simp [h3, bind, Except.bind] at h1
+          | ok f =>
+            simp only [h3, bind, Except.bind, pure, Except.pure] at h1
+            injection h1 with h1; injection h1 with _ h1; injection h1 with h1 _
+            exact h1.symm
+  subst hp
+  obtain ⟨hl, hn, ha, _, _⟩ := Graph.mapAttrs_spec c (fun _ a => { a with explored := some false })
+  exact ⟨rfl, hl, hn, ha⟩
+
+/-- **Repeating the serialization on the same object gives the same string.**  After one call the
+argument is `c.resetExplored`; serializing that again returns the identical result. -/
+theorem C12_serialize_repeat (c : Graph) :
+    (serializeMolecule c.resetExplored).map (·.1) = (serializeMolecule c).map (·.1) := by
+  have hidem : c.resetExplored.resetExplored = c.resetExplored := by
+    simp [Graph.resetExplored, Graph.mapAttrs, List.map_map, Function.comp_def]
+  have hany : c.resetExplored.nodes.any (·.attrs.part.isNone) = c.nodes.any (·.attrs.part.isNone) := by
+    simp [Graph.resetExplored, Graph.mapAttrs, List.any_map, Function.comp_def]
+  unfold serializeMolecule assignFinalLabels
+  rw [hany, hidem]
+
+/-- non-vacuity: a concrete molecule meets the hypotheses -/
+example : exGraph.WF ∧ exGraph.Simple := ⟨exGraph_wf, exGraph_simple⟩
 
 end Tucan
